@@ -53,4 +53,33 @@ def mean (l : List Rat) : Rat := l.sum / (l.length : Rat)
     (no exception); the model reports that as the error `"div0"` instead of Lean's total `x / 0 = 0`. -/
 def divE (a b : Rat) : Except String Rat := if b = 0 then .error "div0" else .ok (a / b)
 
+/-! ### translator option `column` (C20): one location's column of a `[time, i, j]` array is a list over time -/
+
+/-- `np.cumsum` of an integer array -/
+def cumsumFrom (acc : Int) : List Int → List Int
+  | [] => []
+  | a :: t => (acc + a) :: cumsumFrom (acc + a) t
+
+def cumsum (l : List Int) : List Int := cumsumFrom 0 l
+
+/-- `np.split(x, idx, axis=0)` for non-negative split points: the sections `x[0:i₀], x[i₀:i₁], …, x[i_last:]`
+    (numpy: `div_points = [0] + idx + [len]`, section `k` is the Python slice `x[div[k]:div[k+1]]`) -/
+def splitFrom {α} (x : List α) (prev : Int) : List Int → List (List α)
+  | [] => [x.drop prev.toNat]
+  | i :: t => ((x.drop prev.toNat).take (i - prev).toNat) :: splitFrom x i t
+
+def splitAtIdx {α} (x : List α) (idx : List Int) : List (List α) := splitFrom x 0 idx
+
+/-- run-length encoding of a list: `(value, length)` of every maximal run -/
+def runs : List Int → List (Int × Nat)
+  | [] => []
+  | a :: t =>
+    match runs t with
+    | (b, n) :: r => if a = b then (b, n + 1) :: r else (a, 1) :: (b, n) :: r
+    | [] => [(a, 1)]
+
+/-- `np.unique(x)` / `np.unique(x, return_counts=True)`: the distinct values in ascending order and how often each occurs -/
+def uniqueSorted (l : List Int) : List Int := (runs (l.mergeSort (fun a b => decide (a ≤ b)))).map (·.1)
+def uniqueCounts (l : List Int) : List Int := (runs (l.mergeSort (fun a b => decide (a ≤ b)))).map (fun p => (p.2 : Int))
+
 end Py
